@@ -14,6 +14,10 @@ rules have to know one of them only:
                        attribute chain on self that the function never assigns)
   list_of_projection  [p for p, _ in pairs] as the iterable of another comprehension is left alone
                       unless it is an operand of zip (handled by fuse_zip_of_map)
+  append_loops        xs = []; for t in it: xs.append(e)        ->  xs = [e for t in it]
+  split_parallel      a, b = (x, y)                             ->  a = x; b = y
+  conditional / default-then-override assignments               ->  if / else statements
+  flag locals, self aliases, **dict keywords                    (see the functions below)
 """
 from __future__ import annotations
 
@@ -448,10 +452,98 @@ class _SplitParallel(ast.NodeTransformer):
         return node
 
 
+class _AppendLoops(ast.NodeTransformer):
+    """xs = []; for t in it: xs.append(e)      ->      xs = [e for t in it]
+    when the loop body is that single append, there is no else branch, neither e nor it reads
+    xs, and the loop variable is not read outside the loop (a comprehension keeps it private)."""
+
+    def visit_FunctionDef(self, node):
+        leaked = set()
+        binders = [x for x in ast.walk(node) if isinstance(x, (ast.For, ast.ListComp, ast.GeneratorExp,
+                                                               ast.SetComp, ast.DictComp))]
+
+        def bound_by(b):
+            tg = [b.target] if isinstance(b, ast.For) else [g.target for g in b.generators]
+            return {y.id for t in tg for y in ast.walk(t) if isinstance(y, ast.Name)}
+        for loop in [x for x in binders if isinstance(x, ast.For)]:
+            tgt = bound_by(loop)
+            inside = {id(y) for y in ast.walk(loop)}
+            # reads inside another loop / comprehension that binds the name itself see that binding
+            own = set()
+            for b in binders:
+                if b is not loop and bound_by(b) & tgt and not any(z is loop for z in ast.walk(b)):
+                    own |= {id(y) for y in ast.walk(b)}
+            for y in ast.walk(node):
+                if isinstance(y, ast.Name) and y.id in tgt and id(y) not in inside and id(y) not in own \
+                        and isinstance(y.ctx, ast.Load):
+                    leaked.add(y.id)
+        prev, prev_fn = getattr(self, "_leaked", set()), getattr(self, "_fn", None)
+        self._leaked, self._fn = leaked, node
+        try:
+            self.generic_visit(node)
+        finally:
+            self._leaked, self._fn = prev, prev_fn
+        return node
+
+    def _block(self, stmts: List[ast.stmt]) -> List[ast.stmt]:
+        out: List[ast.stmt] = []
+        i = 0
+        while i < len(stmts):
+            st = stmts[i]
+            nxt = stmts[i + 1] if i + 1 < len(stmts) else None
+            if isinstance(nxt, ast.For) and len(nxt.body) == 2 and isinstance(nxt.body[0], ast.Assign) \
+                    and len(nxt.body[0].targets) == 1 and isinstance(nxt.body[0].targets[0], ast.Name) \
+                    and isinstance(nxt.body[1], ast.Expr) and isinstance(nxt.body[1].value, ast.Call) \
+                    and len(nxt.body[1].value.args) == 1 \
+                    and isinstance(nxt.body[1].value.args[0], ast.Name) \
+                    and nxt.body[1].value.args[0].id == nxt.body[0].targets[0].id:
+                # t = e; xs.append(t)  with t used for nothing else: the same as xs.append(e)
+                tmp = nxt.body[0].targets[0].id
+                uses = sum(1 for y in ast.walk(getattr(self, "_fn", nxt)) if isinstance(y, ast.Name) and y.id == tmp)
+                if uses == 2:
+                    call_ = nxt.body[1].value
+                    call_.args = [nxt.body[0].value]
+                    nxt.body = [nxt.body[1]]
+            if isinstance(st, ast.Assign) and len(st.targets) == 1 and isinstance(st.targets[0], ast.Name) \
+                    and isinstance(st.value, ast.List) and not st.value.elts \
+                    and isinstance(nxt, ast.For) and not nxt.orelse and len(nxt.body) == 1 \
+                    and isinstance(nxt.body[0], ast.Expr) and isinstance(nxt.body[0].value, ast.Call):
+                name = st.targets[0].id
+                c = nxt.body[0].value
+                tnames = {y.id for y in ast.walk(nxt.target) if isinstance(y, ast.Name)}
+                if isinstance(c.func, ast.Attribute) and c.func.attr == "append" \
+                        and isinstance(c.func.value, ast.Name) and c.func.value.id == name \
+                        and len(c.args) == 1 and not c.keywords \
+                        and name not in _names_loaded(c.args[0]) and name not in _names_loaded(nxt.iter) \
+                        and not (tnames & getattr(self, "_leaked", set())) \
+                        and not any(isinstance(x, (ast.Yield, ast.YieldFrom, ast.Await, ast.NamedExpr))
+                                    for x in ast.walk(c.args[0])):
+                    comp = ast.ListComp(elt=c.args[0], generators=[
+                        ast.comprehension(target=nxt.target, iter=nxt.iter, ifs=[], is_async=0)])
+                    ast.copy_location(comp, nxt)
+                    out.append(ast.copy_location(ast.Assign(targets=st.targets, value=comp), st))
+                    i += 2
+                    continue
+            out.append(st)
+            i += 1
+        return out
+
+    def generic_visit(self, node):
+        super().generic_visit(node)
+        if isinstance(node, (ast.Module, ast.ClassDef)):
+            return node
+        for field in ("body", "orelse", "finalbody"):
+            b = getattr(node, field, None)
+            if isinstance(b, list) and b and isinstance(b[0], ast.stmt):
+                setattr(node, field, self._block(b))
+        return node
+
+
 def canonicalise(tree: ast.Module, aliases: bool = True) -> ast.Module:
     tree = split_conditional_assignments(tree)
     tree = _UnpackIndexed().visit(tree)
     tree = _SplitParallel().visit(tree)
+    tree = _AppendLoops().visit(tree)
     tree = _FuseZipOfMap().visit(tree)
     if aliases:
         for x in ast.walk(tree):
